@@ -359,6 +359,7 @@ func vxC06LinearConfig(rep *mc.Report, base vxCase, sample bool) {
 		c := base
 		c.Input = in
 		rep.Evaluations++
+		rep.Count("linear-evaluations", 1)
 		v, f := vxLinearCheck(rep, curve, c)
 		if f != nil {
 			vxViolate(rep, "C06", vxLinearFamily(c.Kind), f, c, vxDescribe(c))
@@ -834,10 +835,10 @@ var (
 	vxPidDts       = []int{0, 200, 1000}
 	// readings: the extremes of what the sensor kind can deliver, around 0, set point 60 +-1 m-degree, and two
 	// readings (61, 65 degrees) that put the README gains into the unsaturated part of the output range
-	vxPidVirtual   = []float64{60000, 59999, 60001, 61000, 65000, 0, -1, -1e300, 1e300}
-	vxPidFile      = []int{60000, 59999, 60001, 61000, 65000, 0, -1, math.MinInt64, math.MaxInt64}
-	vxPidVSensor   *sensors.VirtualSensor
-	vxPidFilePath  string
+	vxPidVirtual  = []float64{60000, 59999, 60001, 61000, 65000, 0, -1, -1e300, 1e300}
+	vxPidFile     = []int{60000, 59999, 60001, 61000, 65000, 0, -1, math.MinInt64, math.MaxInt64}
+	vxPidVSensor  *sensors.VirtualSensor
+	vxPidFilePath string
 )
 
 func vxPidReadings(c vxCase) []string {
